@@ -624,7 +624,7 @@ package rac
 //@   modifies *r, mem(r.chunkReader.currNode), mem(p)
 //@   assume@after initialize#1 result != errInternalInconsistentPosition
 //@   loop 1 invariant r.err == nil && rOK(r) && seqInv(r) && isnil(r.concReader.stopc) && r.posLimit == atentry(1, r.posLimit) && r.chunkReader.initialized && r.chunkReader.err == nil && forall(k, 0, len(r.CodecReaders), r.CodecReaders[k] != nil)
-//@   loop 1 invariant 0 <= numRead && base(p) == old(base(p)) && off(p) == old(off(p)) + numRead && int64(numRead) + int64(len(p)) <= int64(old(len(p))) && r.pos == old(r.pos) + int64(numRead) && math(r.pos) + math(len(p)) <= math(r.posLimit) 
+//@   loop 1 invariant 0 <= numRead && base(p) == old(base(p)) && off(p) == old(off(p)) + numRead && int64(numRead) + int64(len(p)) <= int64(old(len(p))) && r.pos == old(r.pos) + int64(numRead) && math(r.pos) + math(len(p)) <= math(r.posLimit)
 
 // The concurrent reader is outside what function contracts can decide; its seek
 // is only framed here so that the sequential branch of Reader.seek can be proved.
